@@ -146,10 +146,11 @@ def check_composition(entry: L.Entry, v, opts: int = 0):
             want = L.ser_doc(F, nb)
         got = entry.encode(v)
         if want != got:
-            if F == "orjson" and entry.dialect is not None and opts and L.tree_eq(L.parse_doc(F, got), L.parse_doc(F, want)):
-                # observation (not a C04 violation: the document is the same tree): with a call-time dialect
-                # the generated method calls encoder(...) without the encoder kwargs, so orjson_options is ignored
-                out.append(("observation-orjson_options-ignored-with-call-dialect", "", ""))
+            if F == "orjson" and entry.dialect is not None and opts and got == orjson.dumps(nb):
+                # with a call-time dialect the generated method calls encoder(...) without the encoder kwargs
+                # (builder.py _add_pack_method_with_dialect_lines): Config.orjson_options / orjson_options= is ignored.
+                # The document is exactly the one written without options (model: EncKwargs.kw_used ret_dialect = None).
+                out.append(("encoder-kwargs", repr(got)[:300], repr(want)[:300]))
             else:
                 out.append(("composition", repr(got)[:300], repr(want)[:300]))
     except Exception as e:
@@ -261,6 +262,9 @@ def signature(S: L.Schema, F: str, kind: str, phase: str, observed: str, v, shp=
     if shp is not None and F in ("orjson", "msgpack", "toml") and kind in ("mixin", "mixin-str") \
             and "dbase" in L.kinds_deep(shp, S) and phase != "composition":
         sig["kind"] = "format-base-typed-field-subclass-fields-dropped"
+        return sig
+    if phase == "encoder-kwargs" and F == "orjson" and kind == "mixin" and dialect_given:
+        sig["kind"] = "orjson-options-ignored-with-call-dialect"
         return sig
     if phase.startswith("alike-decode"):
         phase_class = "decode-or-roundtrip"
@@ -840,6 +844,125 @@ def typing_list_int():
     return typing.List[int]
 
 
+KW_SRC = L.HEADER + """
+import orjson
+from mashumaro.config import ADD_DIALECT_SUPPORT
+
+class XDK(Dialect):
+    pass
+
+@dataclass
+class KW(%(mixin)s):
+    b: int
+    a: Dict[%(key)s, int]
+    class Config(BaseConfig):
+        code_generation_options = [ADD_DIALECT_SUPPORT]
+%(opt)s
+"""
+KW_MIXINS = {"json": "DataClassJSONMixin", "orjson": "DataClassORJSONMixin", "yaml": "DataClassYAMLMixin",
+             "msgpack": "DataClassMessagePackMixin", "toml": "DataClassTOMLMixin"}
+
+
+def kwargs_correspondence(ctx: vlib.Ctx):
+    """(M) the encoder keyword that reaches the format library from the generated to_<format> method - observed with a
+    recording encoder on the real classes - against EncKwargs.kw_used over the generator's decisions as read from
+    builder.py on this run (K104b) and the mixins' builder params (K104a), evaluated by vm_compute.
+    Also the direct probe of the visible consequence (known finding C04/orjson-options-ignored-with-call-dialect)."""
+    name = "encoder-kwargs-model-vs-impl"
+    kr = ctx.kernel_report
+    if not (kr.get("K104b", {}).get("ok") and kr.get("K104a", {}).get("ok")):
+        ctx.correspondence(name, 0, -1, "kernel K104a/K104b not translated: " + str(kr.get("K104b", {}).get("error")))
+        return
+    import orjson
+    cases, descr = [], []
+    configs = [None, orjson.OPT_SORT_KEYS, orjson.OPT_INDENT_2 | orjson.OPT_APPEND_NEWLINE]
+    calls = [None, orjson.OPT_SORT_KEYS, orjson.OPT_INDENT_2, 0]
+    for F in FORMATS:
+        for ci, cfg in enumerate(configs if F == "orjson" else [None]):
+            src = KW_SRC % {"mixin": KW_MIXINS[F], "key": "str",
+                            "opt": f"        orjson_options = {cfg}" if cfg is not None else "        pass"}
+            modname = f"c04_kw_{F}_{ci}"
+            try:
+                mod = L.load_module(src, modname)
+                v = mod.KW(1, {"k": 2})
+                cfg_eff = getattr(mod.KW.Config, "orjson_options", 0) if F == "orjson" else 0
+                for rep in (0, 1):                      # second round: the per-dialect packer comes from the cache
+                    for dg in (False, True):
+                        for call in (calls if F == "orjson" else [None]):
+                            rec = []
+
+                            def spy(tree, **kw):
+                                rec.append(kw)
+                                return b""
+                            kw = {"encoder": spy}
+                            if dg:
+                                kw["dialect"] = mod.XDK
+                            if call is not None:
+                                kw["orjson_options"] = call
+                            try:
+                                getattr(v, L.MIXIN_METHODS[F][0])(**kw)
+                                if len(rec) != 1 or set(rec[0]) - {"option"}:
+                                    obs = "(Some (-1)%Z)"       # never equal: the encoder must be called exactly once
+                                else:
+                                    obs = f"(Some ({rec[0]['option']})%Z)" if "option" in rec[0] else "None"
+                            except Exception as e:
+                                obs = "(Some (-2)%Z)"
+                                rec.append(_exc(e))
+                            cs = f"(Some ({call})%Z)" if call is not None else "None"
+                            cases.append(f"({vlib.coq_bool(dg)}, {L.FMT[F]}, ({cfg_eff})%Z, {cs}, {obs})")
+                            descr.append({"format": F, "dialect_given": dg, "config": cfg_eff, "call": call, "round": rep,
+                                          "observed": str(rec)[:200]})
+            except Exception as e:
+                ctx.fail(f"encoder-kwargs probe class cannot be created/used: {_exc(e)}",
+                         {"entry": "schema", "src": src, "observed": traceback.format_exc()[-1500:], "expected": "classes are created"},
+                         {"kind": "schema-compile", "exc": type(e).__name__})
+            finally:
+                L.unload_module(modname)
+    okf = ("fun (c: bool * fmt * Z * option Z * option Z) => match c with (dg, F, config, call, obs) => "
+           "oz_eqb (kw_used (if dg then ret_dialect else ret_plain) (has_encoder F) (has_kwargs F) config call) obs end")
+    bad, log = vlib.coq_bad_idx("c04_kw", "Fmt EncKwargs EncKwargsProofs", "From VerifGen Require Import K104a K104b.",
+                                "Open Scope Z_scope.", cases, okf, "bool * fmt * Z * option Z * option Z", shard=400,
+                                timeout=1800, needs=["theories/EncKwargsProofs.vo"])
+    ctx.count(n=len(cases))
+    if bad is None:
+        ctx.correspondence(name, len(cases), -1, log)
+        ctx.not_shown("correspondence " + name, log)
+    else:
+        ctx.correspondence(name, len(cases), len(bad), str([descr[i] for i in bad[:4]]))
+        if bad:
+            ctx.not_shown("correspondence " + name, str([descr[i] for i in bad[:4]]))
+    # direct probe: a value that the configured encoder accepts (OPT_NON_STR_KEYS) must encode with and without `dialect=`
+    src = KW_SRC % {"mixin": KW_MIXINS["orjson"], "key": "int", "opt": "        orjson_options = orjson.OPT_NON_STR_KEYS"}
+    modname = "c04_kw_probe"
+    try:
+        mod = L.load_module(src, modname)
+        v = mod.KW(1, {3: 2})
+        want = v.to_jsonb()
+        ctx.count(("kwargs-probe", "plain"))
+        if mod.KW.from_json(want) != v:
+            ctx.fail("orjson/mixin: OPT_NON_STR_KEYS document does not decode back", {"entry": "encoder-kwargs", "src": src,
+                     "value_src": "KW(1, {3: 2})", "dialect": None, "observed": repr(want), "expected": "round trip"},
+                     {"format": "orjson", "entry": "mixin", "phase": "roundtrip", "kind": "other"})
+        ctx.count(("kwargs-probe", "dialect"))
+        try:
+            got = v.to_jsonb(dialect=mod.XDK)
+            observed = repr(got)
+        except Exception as e:
+            got, observed = None, _exc(e)
+        if got != want:
+            ctx.fail(f"orjson/mixin[XDK]: to_jsonb(dialect=XDK) differs from to_jsonb() under Config.orjson_options: {observed[:120]}",
+                     {"entry": "encoder-kwargs", "src": src, "value_src": "KW(1, {3: 2})", "dialect": "XDK",
+                      "observed": observed, "expected": repr(want)},
+                     {"format": "orjson", "entry": "mixin", "phase": "encoder-kwargs", "kind": "orjson-options-ignored-with-call-dialect",
+                      "dialect": "XDK"})
+    except Exception as e:
+        ctx.fail(f"encoder-kwargs probe class cannot be created/used: {_exc(e)}",
+                 {"entry": "schema", "src": src, "observed": traceback.format_exc()[-1500:], "expected": "classes are created"},
+                 {"kind": "schema-compile", "exc": type(e).__name__})
+    finally:
+        L.unload_module(modname)
+
+
 def names_oracle(ctx: vlib.Ctx):
     """Direct check of the method-name clause on the real classes: one class carrying every format mixin
     gets one distinct generated method per (format, direction) and none is overwritten."""
@@ -880,7 +1003,7 @@ class P(%s):
 
 
 C04_TARGETS = ["props/C04_formats.vo", "props/C04_names.vo", "props/C04_dialects.vo", "props/C04_codec.vo",
-               "props/C04_entries.vo", "theories/FmtCases.vo", "theories/K11Proofs.vo", "theories/CodecWrapProofs.vo"]
+               "props/C04_entries.vo", "props/C04_kwargs.vo", "theories/FmtCases.vo", "theories/K11Proofs.vo", "theories/CodecWrapProofs.vo"]
 
 
 def prebuild(ctx: vlib.Ctx):
@@ -944,23 +1067,27 @@ def run(ctx: vlib.Ctx):
     ctx.theorems("props/C04_entries.vo", ["C04_entry_points_alike", "C04_decoder_object_is_model_decode",
                                           "C04_encoder_object_is_model_encode", "C04_codec_objects_roundtrip"],
                  kernels=["K104a", "K40"])
+    ctx.theorems("props/C04_kwargs.vo", ["C04_encoder_kwargs_reach_encoder", "C04_encoder_kwargs_with_dialect_refuted",
+                                         "C04_encoder_kwargs_with_dialect_partial", "C04_method_document_keyword"],
+                 kernels=["K104a", "K104b"])
     ctx.checker_cmd = (f"make -C {vlib.COQ} props/C04_formats.vo props/C04_names.vo props/C04_dialects.vo props/C04_codec.vo "
-                       "props/C04_entries.vo (coqc 8.16.1, full .vo build); thorough: coqchk -o on the five files")
+                       "props/C04_entries.vo props/C04_kwargs.vo (coqc 8.16.1, full .vo build); thorough: coqchk -o on the six files")
     if not ctx.quick():     # second opinion on the compiled proofs
         rc, log, _ = vlib.run(["timeout", "900", "coqchk", "-o", "-silent", "-Q", "theories", "Verif", "-Q", "gen", "VerifGen",
                                "-Q", "props", "VerifProps", "VerifProps.C04_formats", "VerifProps.C04_names",
-                               "VerifProps.C04_dialects", "VerifProps.C04_codec", "VerifProps.C04_entries"], cwd=vlib.COQ, timeout=930)
+                               "VerifProps.C04_dialects", "VerifProps.C04_codec", "VerifProps.C04_entries", "VerifProps.C04_kwargs"], cwd=vlib.COQ, timeout=930)
         import re as _re
         m = _re.search(r"\* Axioms:\s*(.*?)\n\s*\n", log, _re.S)
         axioms = " ".join(m.group(1).split()) if m else "(summary not found)"
         ok = rc == 0 and axioms == "<none>"
-        ctx.obligation("coqchk -o VerifProps.C04_formats C04_names C04_dialects C04_codec C04_entries", ok, f"Axioms: {axioms} | " + log[-300:])
+        ctx.obligation("coqchk -o VerifProps.C04_formats C04_names C04_dialects C04_codec C04_entries C04_kwargs", ok, f"Axioms: {axioms} | " + log[-300:])
         ctx.trusted.append(f"coqchk -o on the C04 props files: Axioms: {axioms}")
         if not ok:
             ctx.not_shown("coqchk on the C04 props", log[-1000:])
     k11_validation(ctx)
     k40_validation(ctx)
     k104a_validation(ctx)
+    kwargs_correspondence(ctx)
     correspondence(ctx)
     broken = bool(ctx.unshown)
     names_oracle(ctx)
@@ -1008,6 +1135,22 @@ def replay(rep: dict) -> int:
         for phase, observed, expected in fails:
             print(f"  {phase}: observed {observed[:300]} | expected {expected[:300]}")
         if any(ph == rep["phase"] for ph, _, _ in fails) or (fails and rep["phase"] == "orjson_options-override"):
+            print("REPRODUCED")
+            return 1
+        print("not reproduced")
+        return 0
+    if rep.get("entry") == "encoder-kwargs":
+        mod = L.load_module(rep["src"], "c04_replay")
+        ns = mod.__dict__
+        v = eval(rep["value_src"], ns)
+        want = v.to_jsonb()
+        try:
+            got = v.to_jsonb(dialect=ns[rep["dialect"]]) if rep.get("dialect") else want
+            print("to_jsonb():", want, "| to_jsonb(dialect=..):", got)
+        except Exception as e:
+            got = None
+            print("to_jsonb():", want, "| to_jsonb(dialect=..) raises", _exc(e))
+        if got != want or ns[rep["root"] if "root" in rep else "KW"].from_json(want) != v:
             print("REPRODUCED")
             return 1
         print("not reproduced")
